@@ -8,6 +8,7 @@ import PyaisVerif.Model.Socket
 import PyaisVerif.Model.Encode
 import PyaisVerif.Model.Filter
 import PyaisVerif.Model.Tracker
+import PyaisVerif.Model.Broker
 import PyaisVerif.Spec.Layout
 import PyaisVerif.Generated.Tables
 import PyaisVerif.Generated.Consts
@@ -186,23 +187,38 @@ def showEvs (evs : List (Ev × Int)) : String :=
 
 def showTrkState (s : TrkState) : String := "{" ++ " ".intercalate (s.tracks.map showTrack) ++ "}"
 
+/-- the observers of the harness: callbacks 4, 5, 6 (one per event), 7 (one callable for all three events), and
+1, 2, 3 (one per event; they unsubscribe and subscribe again during the history) -/
+def initialSubs : Subs :=
+  [SubOp.attach .created 4, .attach .updated 5, .attach .deleted 6, .attach .created 7, .attach .updated 7,
+   .attach .deleted 7, .attach .created 1, .attach .updated 2, .attach .deleted 3].foldl subStep []
+
 structure TrkRun where
   st : TrkState
   now : Int := 0
   out : List String := []
+  subs : Subs := initialSubs
+
+def evOfKey (k : String) : Ev × Nat :=
+  if k = "C" then (.created, 1) else if k = "U" then (.updated, 2) else (.deleted, 3)
+
+/-- calls per observed callback for the events of one operation -/
+def showCalls (subs : Subs) (evs : List (Ev × Int)) : String :=
+  let calls := deliver subs evs
+  "~" ++ ",".intercalate ([1, 2, 3, 7].map fun cb => toString ((calls.filter (·.1 = cb)).length))
 
 def trkOp (r : TrkRun) (op : String) : TrkRun :=
   let emit (st : TrkState) (s : String) : TrkRun := { r with st := st, out := r.out ++ [s ++ " " ++ showTrkState st] }
   match op.splitOn ":" with
   | ["t", n] => { r with now := parseInt n }
   | ["l", n] => { r with st := { r.st with ttl := if n = "N" then none else some (parseInt n) } }
-  | ["c"] => let (st, evs) := cleanup r.st r.now; emit st ("c[" ++ showEvs evs ++ "]")
+  | ["c"] => let (st, evs) := cleanup r.st r.now; emit st ("c[" ++ showEvs evs ++ "]" ++ showCalls r.subs evs)
   | ["p", m] =>
     let (st, evs, t) := popTrack r.st (parseInt m)
-    emit st ("p[" ++ showEvs evs ++ "]" ++ (match t with | some t => showTrack t | none => "N"))
+    emit st ("p[" ++ showEvs evs ++ "]" ++ showCalls r.subs evs ++ (match t with | some t => showTrack t | none => "N"))
   | ["g", m] => emit r.st ("g" ++ (match getTrack r.st (parseInt m) with | some t => showTrack t | none => "N"))
-  | ["r", _] => r
-  | ["a", _] => r
+  | ["r", k] => { r with subs := detach r.subs (evOfKey k).1 (evOfKey k).2 }
+  | ["a", k] => { r with subs := attach r.subs (evOfKey k).1 (evOfKey k).2 }
   | ["n", k] => emit r.st ("n[" ++ " ".intercalate ((nLatest r.st (parseInt k)).map fun t => toString t.mmsi) ++ "]")
   | ["u", line, ts] =>
     match decodeArgs nk env false [bytesOfHex line] with
@@ -212,7 +228,7 @@ def trkOp (r : TrkRun) (op : String) : TrkRun :=
       | some (.int mmsi) =>
         let ts := if ts = "N" then r.now else parseInt ts
         let (st, evs, ok) := update r.st mmsi (msgAttrs trackFieldNames m) ts r.now
-        emit st ((if ok then "u+[" else "u-[") ++ showEvs evs ++ "]")
+        emit st ((if ok then "u+[" else "u-[") ++ showEvs evs ++ "]" ++ showCalls r.subs evs)
       | _ => emit r.st "uERR:TypeError"
   | _ => { r with out := r.out ++ ["BAD-OP"] }
 
